@@ -68,7 +68,9 @@ def grammar_sessions(ctx, reps):
                     if v == "FAKE_TRXC_DELAY":
                         args = [abs(a) % 500 for a in args]
                     t = rng.randrange(len(sim.trx))
-                    s.cmd(t, "CMD " + " ".join([v] + [str(a) for a in args]), rport=rng.choice([45000, 5801, 6801, 1]))
+                    # whoever sends a command gets the reply: any port, any address
+                    s.cmd(t, "CMD " + " ".join([v] + [str(a) for a in args]), rport=rng.choice([45000, 5801, 6801, 1]),
+                          rhost=rng.choice(["127.0.0.1", "127.0.0.1", "127.0.0.2", "10.1.2.3", "192.168.1.77"]))
                     if rng.random() < 0.2:
                         s.cmd(t, rng.choice([b"", b"RSP POWERON 0\0", b"XCMD POWERON\0", b"cmd POWERON\0", b"IND CLOCK 5\0",
                                              b"\xffCMD POWERON\0", b"\xff\xfeCMD POWEROFF\0", b"C\x80MD RFMUTE 1\0", b"\xc3CMD SETFORMAT 1\0",
